@@ -13,6 +13,7 @@ import (
 )
 
 type Exec struct {
+	mutexKeys    map[string]bool
 	fmtParent    map[*FmtStr]*FmtStr
 	fmtOf        map[string]*FmtStr
 	posOf        map[string]FmtPos
